@@ -142,4 +142,43 @@ def published (l : Loc) : Except Err Bytes :=
   | .error e => .error e
   | .ok ext => .ok (contextScope scheme defaultRoot ext (urlencode quote (present l.elems)))
 
+/-! ## updating an existing location context state -/
+
+/-- the part of a `LocationContextStateContainer` the published scope depends on: the six `LocationDetail` attributes
+    (kept as a `Loc` with the fixed identification root) and the extension of its identification (`none`: the state has
+    no Identification yet) -/
+structure LocState where
+  detail : Loc
+  ext : Option Bytes
+deriving DecidableEq, Repr
+
+/-- a fresh state container: `LocationDetail()` without attributes, no identification -/
+def LocState.fresh : LocState := ⟨⟨defaultRoot, none, none, none, none, none, none⟩, none⟩
+
+/-- `update_from_sdc_location` on an existing state object: all six `LocationDetail` attributes are overwritten (an
+    absent element clears the attribute), then the identification is replaced; when `_loc_extension_segment` raises
+    (nothing set) the attributes are already overwritten and the old identification stays -/
+def updateFromLocation (st : LocState) (l : Loc) : LocState × Option Err :=
+  let d : Loc := { l with root := defaultRoot }
+  match locExtension l with
+  | .error e => ({ st with detail := d }, some e)
+  | .ok ext => (⟨d, some ext⟩, none)
+
+/-- the location scope `mk_scopes` publishes for an associated state (`ValueError` without identification) -/
+def publishedOfState (st : LocState) : Except Err Bytes :=
+  match st.ext with
+  | none => .error .valueError
+  | some ext => .ok (contextScope scheme defaultRoot ext (urlencode quote (present st.detail.elems)))
+
+/-- the same update inside a context state transaction of the MDIB (`xtra.set_location`, or `get_context_state` +
+    `update_from_sdc_location` in `context_state_transaction`): an exception aborts the transaction, the MDIB keeps the
+    old state -/
+def txUpdate (st : LocState) (l : Loc) : LocState :=
+  match updateFromLocation st l with
+  | (st', none) => st'
+  | (_, some _) => st
+
+/-- a history of location changes of one provider -/
+def runTx (st : LocState) (ls : List Loc) : LocState := ls.foldl txUpdate st
+
 end Sdc.Location
